@@ -180,6 +180,8 @@ class RedisStore(MutableMapping):
     removed from the cache.
     """
 
+    CACHING_IN_PROGRESS = object()  # Placeholder for a cache entry being filled.
+
     def get_connection(full_url, logger):
         """
         Class method to create or return the Redis connection. Defers imports
@@ -455,6 +457,16 @@ class RedisStore(MutableMapping):
         else:
             cached_value = value
 
+        """
+        If the "caching in progress" placeholder set by get_cached_view() is
+        no longer present the key was invalidated whilst its value was being
+        retrieved, so the value might already be out of date and must not be
+        cached, because no further invalidation message will be sent for it.
+        https://redis.io/topics/client-side-caching#avoiding-race-conditions
+        """
+        if self.cache.get(key) is not RedisStore.CACHING_IN_PROGRESS:
+            return cached_value
+
         self.cache[key] = cached_value  # Write to cache
         # Implement LRU semantics e.g. evict the oldest item from cache
         if len(self.cache) > self.cache_size:
@@ -492,10 +504,21 @@ class RedisStore(MutableMapping):
 
         try:  # Get from local cache
             value = self.cache[key]
+            if value is RedisStore.CACHING_IN_PROGRESS:
+                raise KeyError(key)
             self.cache.move_to_end(key)
         except KeyError:  # Get from Redis server
-            value = self[key]
-            value = self._write_to_cache(key, value)
+            # The invalidation handler removes this placeholder if the key
+            # is invalidated before the value retrieved below gets cached.
+            self.cache[key] = RedisStore.CACHING_IN_PROGRESS
+            if len(self.cache) > self.cache_size:  # Retain LRU semantics
+                del self.cache[next(iter(self.cache))]
+            try:
+                value = self[key]
+                value = self._write_to_cache(key, value)
+            finally:
+                if self.cache.get(key) is RedisStore.CACHING_IN_PROGRESS:
+                    del self.cache[key]
 
         return value
 
